@@ -19,7 +19,7 @@ def color_spec():
     )
 
 
-LINKS = ["https://example.org/a", "http://b.test/x?y=1", "c", "file:///tmp/z#frag", "https://example.org/app;jsessionid=A1?x=1;y=2", "https://e.example/p%20q:8080/=+"]
+LINKS = ["https://example.org/a", "http://b.test/x?y=1", "c", "file:///tmp/z#frag", "https://example.org/app;jsessionid=A1?x=1;y=2", "https://e.example/p%20q:8080/=+", "https://GitHub.example/Org/README", "https://github.example/org/readme"]
 
 
 def style_spec(links=True, max_attrs=13, color=True):
